@@ -25,10 +25,14 @@ for sig, what in [
 ]:
     known("C01", "C01-root-node:" + re.sub(r"[^A-Za-z]+", "-", sig)[:40].strip("-"), ["root-node"], sig, RN + ": " + what,
           witness='{ node(id:"N1_1") { id ... on N1 { phone } } } on W0')
-known("C01", "C01-root-node-no-root-steps-crash", ["root-node", "root-node-fragments-0"],
-      r"^crash: panic: runtime error: invalid memory address or nil pointer dereference @ executor/depth_executor_manager\.go:60$",
-      "root node() without inline fragments yields a plan with no root step; DepthExecutorManager.Execute dereferences depthExecutors[0] == nil inside an AsyncMapReduce worker and kills the process",
+known("C01", "C01-root-node-no-root-steps", ["root-node", "root-node-fragments-0"], r"^errors: query plan contains no root steps$",
+      "root node() without inline fragments is planned into zero root steps (the planner keeps only inline fragments); since fix ee77ed7 this is an error instead of a process-killing nil dereference",
       witness='{ node(id:"N1_1") { id } }')
+fixed("C07", "C07-no-root-steps-crash", "ee77ed7", "{ node(id:\"N1_1\") { id } }: nil pointer dereference at executor/depth_executor_manager.go:60 in an AsyncMapReduce worker killed the process")
+fixed("C07", "C07-memberless-interface-crash", "932f200", "{ lonely { x } } with an interface nobody implements: index out of range at planner/sanitize_selection_set.go:135 killed the process")
+fixed("C09", "C09-long-batch-answer-crash", "8266110", "downstream batch answer with one element too many: index out of range at queryer/multiop_queryer.go:159 killed the process")
+fixed("C09", "C09-short-batch-answer-masked", "8266110", "downstream batch answer one element short or empty: nil results returned with nil error, failure masked")
+fixed("C09", "C09-missing-data-masked", "a6df212", "downstream answer {} or {data:null} without errors was merged as an empty result with an empty errors list")
 known("C01", "C01-var-only-in-directive", ["var-only-in-directive"],
       r"^errors: INVALID SUBREQUEST: Variable \"\$<var>\" is not defined\.$",
       "a variable used only in @skip/@include is neither declared in the sub-request header nor forwarded (format.go walkArgumentList only looks at field arguments)",
@@ -60,23 +64,20 @@ known("C01", "C01-node-typed-field", ["node-interface-field"], r"^diff:(MISSING|
 known("C01", "C01-named-fragment-reused", ["frag-named-twice"], r"^diff:EXTRA (id|__typename)$",
       "sanitizeSelectionSet mutates the shared fragment definition on first use; the second spread sees the injected helper as client-selected and does not register it for scrubbing",
       witness="{ n2 { ...F } b: n2 { ...F } } fragment F on N2 { owner { calc } }")
-known("C01", "C01-memberless-interface-crash", ["memberless-abstract"], r"^crash: panic: runtime error: index out of range \[N\] with length N @ planner/sanitize_selection_set\.go:135$",
-      "addScrubFieldsToSelectionSet indexes pt[0] for an interface without implementers; the panic happens in an AsyncMapReduce worker and kills the process", witness="{ lonely { x } }")
 
 # ----------------------------------------------------------------------------- C02 (same defect classes seen at the plan / sub-request level)
 C02 = [
  ("root-node", ["root-node"], [r"^plan-drops-client-field: (__typename|node|id|<field>)$", r"^subrequest-invalid: Cannot query field \"<x>\" on type \"<x>\"\.", r"^subrequest-invalid: Fields \"id\" conflict",
                 r"^plan-adds-non-helper-field$", r"^helper-not-registered-for-removal: (id|__typename)$", r"^subrequest-invalid: Expected \{, found"], RN),
- ("root-node-no-root-steps-crash", ["root-node", "root-node-fragments-0"], [r"^crash: panic: runtime error: invalid memory address or nil pointer dereference @ executor/depth_executor_manager\.go:60$"],
-                "root node() without inline fragments yields a plan with no root step; the executor dereferences a nil depth executor in a worker goroutine"),
  ("var-only-in-directive", ["var-only-in-directive"], [r"^subrequest-invalid: Variable \"\$<var>\" is not defined\.$"], "a variable used only in a directive is not declared in the sub-request"),
  ("var-default-lost", ["var-default-used"], [r"^subrequest-variable-error: ", r"^variable-value-differs: want \w+ got null$"], "client-declared variable defaults do not reach the service"),
  ("alias-is-id", ["alias-is-id"], [r"^subrequest-invalid: Fields \"id\" conflict", r"^plan-drops-client-field: <field>$"], "alias named id collides with the injected helper id"),
  ("interface-field", ["interface-field"], [r"^subrequest-invalid: Expected \{, found", r"^plan-adds-non-helper-field$", r"^subrequest-invalid: Unknown type"], "interface-typed fields are rewritten into per-type fragments that may be empty or name types the receiver lacks"),
  ("node-typed-field", ["node-interface-field"], [r"^subrequest-invalid: Expected \{, found", r"^plan-adds-non-helper-field$", r"^subrequest-invalid: Unknown type", r"^plan-drops-client-field: ", r"^helper-not-registered-for-removal: "],
                 "fields typed as the Node interface are rewritten into per-type fragments that may be empty or name types the receiver lacks"),
+ ("memberless-interface", ["memberless-abstract"], [r"^plan-drops-client-field: <field>$", r"^helper-not-registered-for-removal: __typename$"],
+                "the selection on an interface nobody implements is replaced by an unregistered __typename only (observable only at the plan level: the field's value can only be null)"),
  ("named-fragment-reused", ["frag-named-twice"], [r"^helper-not-registered-for-removal: (id|__typename)$"], "a named fragment spread twice has its injected helper registered only for the first use"),
- ("memberless-interface-crash", ["memberless-abstract"], [r"^crash: panic: runtime error: index out of range \[N\] with length N @ planner/sanitize_selection_set\.go:135$"], "pt[0] on an interface without implementers"),
 ]
 for name, atoms, sigs, what in C02:
     for i, sg in enumerate(sigs):
